@@ -36,6 +36,9 @@ def family(rng):
             inner.append(['raise', 0])
         kind = 'claim' if rng.random() < 0.3 else 'borrow'
         stmt = [kind, r, am, names[0] - 1 if len(inner) > 2 and inner[0][0] == 'borrow' else names[0]] + inner
+        if rng.random() < 0.25:
+            # the context object is made first and entered later: what counts is the level on entry
+            stmt = [kind + 'later'] + stmt[1:4] + [rng.choice([0, F(1, 2), 1, 2])] + stmt[4:]
         if kind == 'claim':
             stmt = ['try', ['body', stmt], ['handler', ['pats', 'resUnavailable'], ['body', ['log', 50 + i]]]]
         prog = [['sleep', rng.choice([0, 0, F(1, 2), 1])], stmt, ['levels', r]]
@@ -88,6 +91,15 @@ def share_used_outside(sc):
     """does some block borrow from a borrowed share (a name bound by a borrow/claim block) from outside the body of the block
     that owns the share - another activity, or a task spawned inside it?  Such a borrower can outlive the share."""
     bound = set()
+
+    def plain(x):
+        # ['claimlater', res, amounts, bind, d, body...] is ['claim', res, amounts, bind, body...] entered `d` later
+        if isinstance(x, list):
+            if x and x[0] in ('borrowlater', 'claimlater'):
+                x = [x[0][:-5]] + x[1:4] + x[5:]
+            return [plain(e) for e in x]
+        return x
+    sc = plain(sc)
 
     def binders(x):
         if isinstance(x, list):
